@@ -55,7 +55,7 @@ SPEC = dict(
     assumptions=["prior content of config-capable files is valid TOML/INI (init appends to it)",
                  "the initial version is '<current UTC year>.1001-alpha'"],
     required=["layouts", "init_appended_to_existing_file", "init_created_new_file", "show_ok", "second_init_refused",
-              "existing_section_preferred", "existing_section_with_comment_after_header", "dry_runs_clean", "pinned_clock_cases"],
+              "existing_section_preferred", "existing_section_with_comment_after_header", "existing_section_with_blanks_around_header", "dry_runs_clean", "pinned_clock_cases"],
     anchors=[("config", "_pick_config_filepath"), ("config", "default_config"), ("config", "write_content"),
              ("cli", "init")],
     exhaustive={"quick": True, "thorough": True},
@@ -95,6 +95,16 @@ def cases(ctx):
                 if ctx.mine(k):
                     yield {"plain": [True, False, True], "cfgs": cfgs}
                 k += 1
+        for i, fn in enumerate(CONFIGS):
+            for opt in ("section_t", "section_i"):
+                if opt == "section_i" and fn == "setup.cfg":
+                    continue        # (an indented line is a continuation line for configparser, not a header)
+                for others in (["absent"] * 4, ["unrelated"] * 4):
+                    cfgs = list(others)
+                    cfgs.insert(i, opt)
+                    if ctx.mine(k):
+                        yield {"plain": [True, False, True], "cfgs": cfgs}
+                    k += 1
 
 
 # days on which the ISO (week-based) year differs from the calendar year, their neighbours, and ordinary days
@@ -136,8 +146,13 @@ def run_layout(ctx, case, bvu):
             files[fn] = TOOLTABLE[fn]
         elif opt == "nonl":
             files[fn] = UNRELATED[fn].rstrip("\n")   # prior content whose last line has no newline
-        elif opt in ("section", "section#"):
+        elif opt in ("section", "section#", "section_t", "section_i"):
             sec = section(fn)
+            if opt in ("section_t", "section_i"):
+                # the header line ends in blanks / a tab, or is indented (keys at column 0): still the same section
+                head, rest = sec.split("\n\n")[0].split("\n", 1)
+                sec = (head + (" \t" if len(fn) % 2 else "  ") if opt == "section_t" else "  " + head) + "\n" + rest + "\n"
+                ctx.count("existing_section_with_blanks_around_header")
             if opt == "section#":
                 # the same section, its header followed by a comment (valid TOML, and accepted by configparser)
                 # (without a file_patterns table: the pattern for the own current_version line is left to bumpver)
